@@ -14,6 +14,7 @@ func init() {
 			"(C06-d) the exposure flag is read on query paths only at the side-effect sites, representative peers never enter GetPeersList, and loops that fold exposure data have no early exit but errors. " +
 			"(C06-a-store) a set stored into such a holder is fresh; (C06-pure) no unreviewed long-lived write on the query paths; " +
 			"(C06-e) a rule peer is recorded as exposure to the entire cluster only under `namespaceSelector present and empty, podSelector absent or empty` (path condition at the recording call; one-line boolean helpers are inlined), and external + cluster-wide only for a rule without peers. " +
+			"(C06-order) GetPeersList stores the IP peers before the workload peers and does not re-order the list: the exposure bookkeeping records a workload's cluster-wide exposure at its first pair as a destination and relies on that pair's source being unrestricted. " +
 			"NOT decided: realizability of each reported entry for hypothetical pods."
 		rules.SharedSets(p, r, "C06-a")
 		rules.ExposureShortcut(p, r, "C06-b")
